@@ -20,8 +20,8 @@
 //!   lane B = the same script on btexts[start[0]] (no request is ever made); compared until A's first successful reload.
 //!   lane C = a fresh instance of the content A loaded (cfg_paths, cur_cfg_idx as in A), created right after the
 //!            iteration of that reload and fed with the rest of the script (everything A's new layout sees); it is
-//!            shown (= compared) from the step after the first iteration at which no physical key is held and A's
-//!            loop would block (can_block = true).
+//!            shown (= compared) from the step after the first iteration at which no physical key is held and both
+//!            A's and its own loop would block (can_block = true); before that only {"on":false,"run":true,"cb":b}.
 //!   That a reload took place is decided by ground truth (the layout object of A was replaced), not by A's messages.
 //!
 //! Output: {"e":"reset","job":id,"script":0,"params":..} then one line per step
@@ -349,26 +349,13 @@ fn run_case(names: &KeyNames, case: &Value, scratch: &Path, w: &mut dyn Write) -
     if lanes {
         let tb = case["btexts"][&start[0]].as_str().ok_or("btexts for the start content")?.to_string();
         b = Some(run_lane(names, &tb, &mut files, &start, 0, &steps, 0)?);
-        // sync point: the first tick step after the latest reload so far at which nothing is held and A would block
-        let mut pending: Option<&(usize, usize, String, Vec<String>)> = None;
-        let mut sync: Option<(usize, &(usize, usize, String, Vec<String>))> = None;
-        let mut ri = 0;
-        for si in 0..na {
-            if ri < a.repls.len() && a.repls[ri].0 == si {
-                pending = Some(&a.repls[ri]);
-                ri += 1;
-            }
-            if let Some(p) = pending {
-                if matches!(steps[si], Step::Tick) && a.cb[si] && phys[si] == 0 {
-                    sync = Some((si, p));
-                    break;
-                }
-            }
-        }
-        if let Some((si, p)) = sync {
+        // For every reload of A, until a comparison has started: a fresh instance of the loaded content is created
+        // right after the iteration of the reload and fed with the rest of the script (everything A's new layout
+        // sees).  The comparison starts after the first iteration at which no physical key is held and both A and
+        // the fresh instance would block; a further reload before that point restarts the procedure.
+        for (ri, p) in a.repls.iter().enumerate() {
             let (rs, idx, kind, _fstate) = p;
-            // the fresh instance sees everything A's new layout has seen: it is fed from the step after the
-            // reload; it is compared (shown) from the idle point on.  File contents as they are at the reload.
+            let next_repl = a.repls.get(ri + 1).map(|r| r.0).unwrap_or(na);
             let mut fs = start.clone();
             for st in steps.iter().take(rs + 1) {
                 if let Step::Write(i, k) = st {
@@ -376,7 +363,22 @@ fn run_case(names: &KeyNames, case: &Value, scratch: &Path, w: &mut dyn Write) -
                 }
             }
             let tc = files.texts.get(kind).ok_or("loaded kind has no text")?.clone();
-            c = Some((rs + 1, si + 1, run_lane(names, &tc, &mut files, &fs, *idx, &steps, rs + 1)?));
+            let run = run_lane(names, &tc, &mut files, &fs, *idx, &steps, rs + 1)?;
+            let mut sync = None;
+            for si in *rs..next_repl.min(na) {
+                let c_cb = if si == *rs { true } else { run.cb.get(si - (rs + 1)).copied().unwrap_or(false) };
+                if matches!(steps[si], Step::Tick) && a.cb[si] && phys[si] == 0 && c_cb {
+                    sync = Some(si);
+                    break;
+                }
+            }
+            if let Some(si) = sync {
+                c = Some((rs + 1, si + 1, run));
+                break;
+            } else if ri + 1 == a.repls.len() {
+                // never compared: still shown as running (its can_block decides the start of the comparison)
+                c = Some((rs + 1, usize::MAX, run));
+            }
         }
     }
     let first_repl = a.repls.first().map(|r| r.0);
@@ -397,8 +399,15 @@ fn run_case(names: &KeyNames, case: &Value, scratch: &Path, w: &mut dyn Write) -
             _ => off.clone(),
         };
         let lc = match &c {
-            Some((from, shown, c)) if si >= *shown && si - from < c.obs.len() => c.obs[si - from].clone(),
-            _ => off.clone(),
+            Some((from, shown, c)) if si >= *shown && si - from < c.obs.len() => {
+                let mut o = c.obs[si - from].clone();
+                o["run"] = json!(true);
+                o
+            }
+            Some((from, _, c)) if si >= *from && si - from < c.obs.len() => {
+                json!({"on": false, "run": true, "cb": c.cb[si - from]})
+            }
+            _ => json!({"on": false, "run": false}),
         };
         match &steps[si] {
             Step::Write(i, k) => {
